@@ -75,6 +75,14 @@ def make_card(i, rng, tag):
         g = cards.CardGen(rng, tag, nbody=3, final_j2=(1, 1, 2), top_j2=(1, 3, 0, 2, 4), res_per_slot=(1, 2), models=MODELS)
     card = g.make()
     card["meta"]["class"] = cls
+    if cls == 0 and (i // 6) % 3 == 1:
+        # a direct three-body vertex A -> B C D interfering with the resonant chains
+        top_ = card["meta"]["top"]["name"]
+        ents = card["config"]["decay"][top_]
+        if not isinstance(ents[0], list):
+            ents = [ents]
+        card["config"]["decay"][top_] = ents + [[f["name"] for f in card["meta"]["finals"]]]
+        card["meta"]["direct_vertex"] = True
     if cls == 2:
         f = card["meta"]["finals"]
         card["config"]["data"]["identical_particles"] = [[f[0]["name"], f[1]["name"]]]
@@ -164,6 +172,10 @@ def run(ctx):
         ctx.context = {"card": cards.short(card), "data_opts": data_opts, "index": i}
         # known-finding class: identical SPINNING finals with the default alignment rule (see known_findings.json)
         kf = " [identical_particles with spinning finals, default align_ref]" if meta.get("identical_sub") == 2 else ""
+        if meta.get("direct_vertex"):
+            ctx.covered("direct_three_body_vertex", True)
+            if any(f["j2"] > 0 for f in meta["finals"]):
+                kf = " [direct three-body vertex with a spinning final-state particle]"
         try:
             f0, _ = cards.density(cfg, ps)
         except Exception as e:
@@ -249,7 +261,7 @@ def run(ctx):
                 tol = tolerance(g0)
                 worst = float(np.max((np.abs(g1 - g0) / tol)[good])) if np.any(good) else 0.0
                 ctx.check("direct API cal_angle_from_momentum+amp invariant", worst <= 1.0,
-                          lambda: dict(desc(), worst_ratio=worst, boost=v, rotation=R), mechanism="direct API invariance")
+                          lambda: dict(desc(), worst_ratio=worst, boost=v, rotation=R), mechanism="direct API invariance" + kf)
             except Exception as e:
                 ctx.violation("direct API cal_angle_from_momentum+amp invariant", ctx.exc_witness(e, **desc()), mechanism="direct API raises")
         if i < 2 * ctx.nshards:
